@@ -45,7 +45,7 @@ def run(run, h):
                     for mkind in ("edge", "zeroexp"):
                         chain_case(run, h, batch, rng, key, start, mkind)
                 # whole-tuple special shapes: every entry 0, every entry the same value, exactly one non-zero entry
-                for mkind in ("all_zero", "all_equal", "one_nonzero"):
+                for mkind in ("all_zero", "all_equal", "one_nonzero") + tuple(rng.sample(SHAPES, 3 if run.tier == "quick" else len(SHAPES))):
                     chain_case(run, h, batch, rng, key, rng.choice(["sign", "crafted"]), mkind)
                 blind_case(run, h, batch, rng, key)
     batch.flush()
@@ -61,6 +61,8 @@ def message(rng, key, mkind):
     elif mkind == "one_nonzero":
         ms = [0] * n
         ms[rng.randrange(n)] = rand_nz(rng)
+    elif mkind in SHAPES:
+        ms = shaped_tuple(rng, n, mkind)
     if mkind == "zeroexp":
         # solve x + <y, m> = 0 for the last coordinate
         partial = (key["x"] + ipq(key["ys"][:-1], ms[:-1])) % Q
